@@ -32,6 +32,7 @@ CONSTANTS
     CmpOpsM,       \* comparison spelling ids enumerated
     LogSpM,        \* AND/OR/NOT spelling variants enumerated
     WithFunc,      \* leaves: an atom, and a function call when TRUE
+    WithList,      \* leaves: also a list expression and a function call with a list argument
     TypedM,        \* FALSE: every tree over KindsM; TRUE: only the well-typed ones (see TypeOf)
     \* ---- the mechanism model (what mapfile.lark + transformer.py do) ----
     Ladder,        \* "lark": or_test < and_test < comparison < sum < product; "swapped": or/and exchanged
@@ -42,7 +43,8 @@ CONSTANTS
     \* ---- the semantic function ----
     DenoteLadder,  \* "ms": % is a comparison operator (as in the grammar); "ms-pctmul": % binds like * /
     \* ---- emission pools (harness) ----
-    AllCmpOps, RootCmpOps, AllLogSp, AtomIds, FuncIds, MaxWalkOps,
+    AllCmpOps, RootCmpOps, AllLogSp, AtomIds, FuncIds, ListIds, MaxWalkOps,
+    TrickySq, TrickyDq, TrickyBq,   \* string operands holding quotes / parentheses / brackets, by quote character
     RootKindsS     \* shapes emitted in one run: those whose root kind is in this set
 
 VARIABLES tree, todo, stack, forest, ops, aux, phase
@@ -54,6 +56,8 @@ vars == <<tree, todo, stack, forest, ops, aux, phase>>
 LP    == <<"LP", 0>>
 RP    == <<"RP", 0>>
 COMMA == <<"COMMA", 0>>
+LB    == <<"LB", 0>>                     \* { and } of a list expression; its elements are ELEM tokens
+RB    == <<"RB", 0>>
 Word  == 1                               \* AND OR NOT as the builders spell them
 PctOp == 10                              \* spelling id of "%" (harness table)
 
@@ -68,18 +72,31 @@ ErrT == <<"ERR", 0>>
 FuncArity(f) == IF f % 2 = 0 THEN 2 ELSE 1
 FuncArgs(f)  == [j \in 1..FuncArity(f) |-> 100 * f + j]
 
-RECURSIVE Commas(_)
-Commas(ids) == IF Len(ids) = 0 THEN <<>>
-               ELSE IF Len(ids) = 1 THEN << <<"ATOM", ids[1]>> >>
-               ELSE << <<"ATOM", ids[1]>>, COMMA >> \o Commas(Tail(ids))
+RECURSIVE Commas(_, _)
+Commas(c, ids) == IF Len(ids) = 0 THEN <<>>
+                  ELSE IF Len(ids) = 1 THEN << <<c, ids[1]>> >>
+                  ELSE << <<c, ids[1]>>, COMMA >> \o Commas(c, Tail(ids))
 
-\* Src: the source token sequence of a tree (leaf <<"FUNC", f>> uses FuncArgs(f); a parsed
-\* call <<"FUNC", f, ids>> carries the argument ids it was written with)
+\* list expressions {e1,e2,...}: the elements are kept verbatim, one ELEM token each (n = interned
+\* element text: names, phrases, quoted strings, numbers in any spelling - 01, 1.50, +4, 1e3).
+\* List l of the harness table has ListLen(l) elements with ids 600+10l+j.
+ListLen(l)   == 1 + (l % 3)
+ListElems(l) == [j \in 1..ListLen(l) |-> 600 + 10 * l + j]
+ListToks(ids) == <<LB>> \o Commas("ELEM", ids) \o <<RB>>
+
+\* the argument tokens of function f: atoms; functions 5 and 6 take a list
+FuncArgToks(f) == CASE f = 5 -> ListToks(ListElems(4))
+                    [] f = 6 -> << <<"ATOM", 601>>, COMMA >> \o ListToks(ListElems(5))
+                    [] OTHER -> Commas("ATOM", FuncArgs(f))
+
+\* Src: the source token sequence of a tree (leaves <<"FUNC", f>> / <<"LIST", l>> use the tables above;
+\* a parsed call <<"FUNC", f, toks>> / list <<"LIST", 0, ids>> carries what it was written with)
 RECURSIVE Src(_)
 Src(t) ==
     LET k == t[1] IN
     CASE k = "ATOM"  -> << <<"ATOM", t[2]>> >>
-      [] k = "FUNC"  -> << <<"FUNC", t[2]>>, LP >> \o Commas(IF Len(t) = 3 THEN t[3] ELSE FuncArgs(t[2])) \o <<RP>>
+      [] k = "FUNC"  -> << <<"FUNC", t[2]>>, LP >> \o (IF Len(t) = 3 THEN t[3] ELSE FuncArgToks(t[2])) \o <<RP>>
+      [] k = "LIST"  -> ListToks(IF Len(t) = 3 THEN t[3] ELSE ListElems(t[2]))
       [] k = "PAREN" -> <<LP>> \o Src(t[3]) \o <<RP>>
       [] k = "NOT"   -> << <<"NOT", t[2]>> >> \o Src(t[3])
       [] k = "NEG"   -> << <<"NEG", 0>> >> \o Src(t[3])
@@ -103,13 +120,21 @@ NotOperandLevel == 4                     \* NOT takes a comparison (everything t
 
 Fail == [t |-> ErrT, n |-> 0]
 
-RECURSIVE PExpr(_, _, _, _, _), PLoop(_, _, _, _, _, _), PPrefix(_, _, _, _), PArgs(_, _, _)
+RECURSIVE PExpr(_, _, _, _, _), PLoop(_, _, _, _, _, _), PPrefix(_, _, _, _), PArgs(_, _, _), PElems(_, _, _)
 
+\* the arguments of a call, verbatim up to its closing parenthesis (atoms, lists, commas)
 PArgs(ts, i, acc) ==
-    IF i + 1 > Len(ts) \/ ts[i][1] # "ATOM" THEN Fail
+    IF i > Len(ts) THEN Fail
+    ELSE IF ts[i][1] = "RP" THEN (IF acc = <<>> THEN Fail ELSE [t |-> acc, n |-> i + 1])
+    ELSE IF ts[i][1] \in {"ATOM", "COMMA", "LB", "RB", "ELEM"} THEN PArgs(ts, i + 1, Append(acc, ts[i]))
+    ELSE Fail
+
+\* the elements of a list, after the opening brace
+PElems(ts, i, acc) ==
+    IF i + 1 > Len(ts) \/ ts[i][1] # "ELEM" THEN Fail
     ELSE LET acc2 == Append(acc, ts[i][2]) IN
-         IF ts[i + 1][1] = "RP" THEN [t |-> acc2, n |-> i + 2]
-         ELSE IF ts[i + 1][1] = "COMMA" THEN PArgs(ts, i + 2, acc2)
+         IF ts[i + 1][1] = "RB" THEN [t |-> acc2, n |-> i + 2]
+         ELSE IF ts[i + 1][1] = "COMMA" THEN PElems(ts, i + 2, acc2)
          ELSE Fail
 
 PPrefix(ts, i, lad, sem) ==
@@ -121,6 +146,8 @@ PPrefix(ts, i, lad, sem) ==
                        THEN LET a == PArgs(ts, i + 2, <<>>) IN
                             IF a.n = 0 THEN Fail ELSE [t |-> <<"FUNC", ts[i][2], a.t>>, n |-> a.n]
                        ELSE Fail
+      [] c = "LB"   -> LET a == PElems(ts, i + 1, <<>>) IN
+                       IF a.n = 0 THEN Fail ELSE [t |-> <<"LIST", 0, a.t>>, n |-> a.n]
       [] c = "LP"   -> LET x == PExpr(ts, i + 1, 1, lad, sem) IN
                        IF x.n = 0 \/ x.n > Len(ts) THEN Fail
                        ELSE IF ts[x.n][1] # "RP" THEN Fail
@@ -179,7 +206,8 @@ Wrap(x)    == <<LP>> \o x \o <<RP>>
 
 Rule(t, ks) ==
     LET k == t[1] IN
-    CASE k = "ATOM"  -> Src(t)                                       \* string / int / float / attr_bind / list / regexp
+    CASE k = "ATOM"  -> Src(t)                                       \* string / int / float / attr_bind / regexp
+      [] k = "LIST"  -> Src(t)                                       \* list: "{e1,e2}" with the elements as written
       [] k = "FUNC"  -> Wrap(Src(t))                                 \* func_call: "(name(params))"
       [] k = "NEG"   -> << <<"NEG", 0>> >> \o ks[1]                  \* neg: "-x"
       [] k = "NOT"   -> << <<"NOT", Word>> >> \o ks[1]               \* not_expression: "NOT x"
@@ -188,7 +216,7 @@ Rule(t, ks) ==
       [] k \in Logic -> LET s == ks[1] \o << <<k, Word>> >> \o ks[2] IN IF AndOrParens THEN Wrap(s) ELSE s
       [] k = "PAREN" -> IF InParen(ks[1]) THEN ks[1] ELSE Wrap(ks[1])  \* expression
 
-Arity(t) == IF t[1] \in {"ATOM", "FUNC"} THEN 0 ELSE IF t[1] \in Unary THEN 1 ELSE 2
+Arity(t) == IF t[1] \in {"ATOM", "FUNC", "LIST"} THEN 0 ELSE IF t[1] \in Unary THEN 1 ELSE 2
 
 RECURSIVE Build(_), PostOrder(_)
 Build(t) == Rule(t, [i \in 1..Arity(t) |-> Build(t[2 + i])])
@@ -196,8 +224,8 @@ PostOrder(t) == IF Arity(t) = 0 THEN <<t>>
                 ELSE IF Arity(t) = 1 THEN Append(PostOrder(t[3]), t)
                 ELSE Append(PostOrder(t[3]) \o PostOrder(t[4]), t)
 
-\* what loads stores for the source ts; <<>> when ts is not a parenthesised expression
-Normal(ts) == LET g == GParse(ts) IN IF g = ErrT THEN <<>> ELSE IF g[1] # "PAREN" THEN <<>> ELSE Build(g)
+\* what loads stores for the source ts; <<>> when ts is not a parenthesised expression or a list expression
+Normal(ts) == LET g == GParse(ts) IN IF g = ErrT THEN <<>> ELSE IF g[1] \notin {"PAREN", "LIST"} THEN <<>> ELSE Build(g)
 
 -----------------------------------------------------------------------------
 (* Tree sets                                                               *)
@@ -207,7 +235,7 @@ Normal(ts) == LET g == GParse(ts) IN IF g = ErrT THEN <<>> ELSE IF g[1] # "PAREN
 \* values; AND OR NOT take logical values or values; % (a comparison operator in mapfile.lark)
 \* yields a value.  P = [kinds, cmps, sps, leaves, typed]; typed = FALSE: every tree over the kinds.
 RECURSIVE TypeOf(_)
-TypeOf(x) == CASE x[1] \in {"ATOM", "FUNC", "NEG"} \cup Arith -> "A"
+TypeOf(x) == CASE x[1] \in {"ATOM", "FUNC", "LIST", "NEG"} \cup Arith -> "A"
                [] x[1] = "CMP" -> IF x[2] = PctOp THEN "A" ELSE "L"
                [] x[1] = "PAREN" -> TypeOf(x[3])
                [] OTHER -> "L"
@@ -243,6 +271,7 @@ BuildTab(n, tab, P) ==                   \* (a bound variable holds a value: eve
 TreesUpTo(n, P) == UNION {UNION {t[i].a \cup t[i].l : i \in 1..(n + 1)} : t \in {BuildTab(n, <<>>, P)}}
 
 LeavesM == {<<"ATOM", 1>>} \cup (IF WithFunc THEN {<<"FUNC", 1>>} ELSE {})
+           \cup (IF WithList THEN {<<"LIST", 4>>, <<"FUNC", 5>>} ELSE {})
 ParamsM == [kinds |-> KindsM, cmps |-> CmpOpsM, sps |-> LogSpM, leaves |-> LeavesM, typed |-> TypedM]
 
 -----------------------------------------------------------------------------
@@ -309,9 +338,17 @@ RootSp(s) ==
       [] s[1] \in {"OR", "AND", "NOT"} -> {[s EXCEPT ![2] = v] : v \in AllLogSp}
       [] OTHER -> {s}
 
-Leaf(mode) == IF mode = 1 THEN <<"FUNC", RandomElement(FuncIds)>>
-              ELSE IF RandomElement(1..8) = 1 THEN <<"FUNC", RandomElement(FuncIds)>>
-              ELSE <<"ATOM", RandomElement(AtomIds)>>
+LeafOf(d) == IF d <= 2 THEN <<"FUNC", RandomElement(FuncIds)>>
+             ELSE IF d <= 4 THEN <<"LIST", RandomElement(ListIds)>>
+             ELSE <<"ATOM", RandomElement(AtomIds)>>
+
+\* leaf modes: 0 mixed; 1 every leaf a function call; 3 4 5 every leaf a string whose content could be
+\* mistaken for structure (quotes, parentheses, brackets), single- / double- / back-quoted
+Leaf(mode) == CASE mode = 1 -> <<"FUNC", RandomElement(FuncIds)>>
+                [] mode = 3 -> <<"ATOM", RandomElement(TrickySq)>>
+                [] mode = 4 -> <<"ATOM", RandomElement(TrickyDq)>>
+                [] mode = 5 -> <<"ATOM", RandomElement(TrickyBq)>>
+                [] OTHER -> CHOOSE x \in {LeafOf(d) : d \in {RandomElement(1..16)}} : TRUE   \* (d is drawn once)
 
 \* fill the open spellings and leaves of a shape at random (keep: the attribute is already chosen)
 RECURSIVE Deco(_, _, _)
@@ -325,17 +362,18 @@ Deco(t, keep, mode) ==
                          Deco(t[3], FALSE, mode), Deco(t[4], FALSE, mode)>>
       [] OTHER -> <<k, 0, Deco(t[3], FALSE, mode), Deco(t[4], FALSE, mode)>>
 
-\* aux: leaf mode (0 mixed leaves and every root spelling; 1 all leaves are function calls)
+\* aux: leaf mode (0 mixed leaves and every root spelling; 1 3 4 5 see Leaf; 2 a bare list expression)
 SInit ==
-    /\ \E s \in {x \in Shapes : x[1] \in RootKindsS} :
-         \/ (tree \in RootSp(s) /\ aux = 0)
-         \/ (tree = s /\ aux = 1)
+    /\ \/ \E s \in {x \in Shapes : x[1] \in RootKindsS} :
+            \/ (tree \in RootSp(s) /\ aux = 0)
+            \/ (tree = s /\ aux \in {1, 3, 4, 5})
+       \/ ("ATOM" \in RootKindsS /\ tree \in {<<"LIST", l>> : l \in ListIds} /\ aux = 2)
     /\ phase = "shape"
     /\ todo = <<>> /\ stack = <<>> /\ forest = <<>> /\ ops = 0
 
 Decorate ==
     /\ phase = "shape"
-    /\ tree' = <<"PAREN", 0, Deco(tree, aux = 0, aux)>>
+    /\ tree' = IF aux = 2 THEN tree ELSE <<"PAREN", 0, Deco(tree, aux = 0, aux)>>
     /\ phase' = "done"
     /\ UNCHANGED <<todo, stack, forest, ops, aux>>
 
@@ -396,5 +434,6 @@ CountOps(t) == IF Arity(t) = 0 THEN 0 ELSE IF Arity(t) = 1 THEN 1 + CountOps(t[3
 
 \* one line per generated tree: its source tokens and what the mechanism model says is stored
 Emit == phase = "done" =>
-            PrintT(ToJson([src |-> Src(tree), norm |-> Normal(Src(tree)), ops |-> CountOps(tree) - 1, lm |-> aux]))
+            PrintT(ToJson([src |-> Src(tree), norm |-> Normal(Src(tree)),
+                           ops |-> IF tree[1] = "PAREN" THEN CountOps(tree) - 1 ELSE 0, lm |-> aux]))
 =============================================================================
